@@ -265,7 +265,7 @@ var validStmts = []string{
 	"namespace\\f();", "static $q = [1, 2];", "do { } while (0);", "unset($a, $b);",
 }
 
-var brokenStmts = []string{"$a = ;", "foo(;", "echo 1 2;", "1 +;", "$x = (1;", "if ($a {", "$a->;", "function ( {}", "class { }", "= 3;", "$b = [1, ;", "else;", "return return;", ") ;", "new;", "$c::;", "}", "} }", "] ;", "} ;", "?> <?php }"}
+var brokenStmts = []string{"$a = ;", "foo(;", "echo 1 2;", "1 +;", "$x = (1;", "if ($a {", "$a->;", "function ( {}", "class { }", "= 3;", "$b = [1, ;", "else;", "return return;", ") ;", "new;", "$c::;", "}", "} }", "] ;", "} ;"}
 
 // evalC07recover: cfg = "<version>/<k>/<mode>"; src = valid statements joined by \x00 then \x01 and the broken
 // statement.  The statement list with the broken statement inserted after the first k statements is
@@ -384,7 +384,7 @@ func evalC07recover(src []byte, cfg string) (o Outcome) {
 }
 
 func oracleC07() *Result {
-	r := &Result{Rule: "(1) any input for which the real parser returns a tree together with errors (corpus / G-cfg sentences with a token deleted, inserted or the text truncated; G-bytes): the printed text equals the tree's own tokens with their free-floating text in offset order — or, where the printer put a canonical lexeme between two of them, that lexeme matches, in order and at most once each, source tokens that lie between the two in the source (real scanner's tokens; `; ?>` counted as `;` and `?>`) —, no token object twice, no node shared. (2) valid statement lists (16 statement forms, random selections of 2..7) with one of 21 malformed statements (among them stray closing braces and brackets at top level) inserted at every boundary, at top level, in a function body and in a brace block: the statements before it equal (tokens, positions) the parse of the prefix alone and, when >= 3 statements follow, the last statement is recovered. Non-trivial = distinct input with a recovered tree"}
+	r := &Result{Rule: "(1) any input for which the real parser returns a tree together with errors (corpus / G-cfg sentences with a token deleted, inserted or the text truncated; G-bytes): the printed text equals the tree's own tokens with their free-floating text in offset order — or, where the printer put a canonical lexeme between two of them, that lexeme matches, in order and at most once each, source tokens that lie between the two in the source (real scanner's tokens; `; ?>` counted as `;` and `?>`) —, no token object twice, no node shared. (2) valid statement lists (16 statement forms, random selections of 2..7) with one of 20 malformed statements (among them stray closing braces and brackets at top level) inserted at every boundary, at top level, in a function body and in a brace block: the statements before it equal (tokens, positions) the parse of the prefix alone and, when >= 3 statements follow, the last statement is recovered. Non-trivial = distinct input with a recovered tree"}
 	rng := newRand("C07")
 	versions := "5.6,7.4"
 	var tasks []Task
